@@ -237,31 +237,39 @@ def run_check(prop: str, tier: str) -> int:
                 continue
         for v in res["verdicts"]:
             attributed = None
+            # 1. findings attributed on their signature alone (the run applies the neutraliser itself)
             for e in open_entries:
-                if not (rule_matches(e["rules"], v["rule"]) and signature_matches(e.get("signature", {}), v["features"])):
-                    continue
-                if not e.get("neutraliser"):
+                if not e.get("neutraliser") and rule_matches(e["rules"], v["rule"]) and signature_matches(e.get("signature", {}), v["features"]):
                     attributed = e
                     break
-                # Remove the trigger and see whether the verdict disappears.  Removing it can let the victim live
-                # longer and meet the trigger again (the next overlapping evaluation), so iterate to a fixed point.
-                current, current_v = scenario, v
-                for _ in range(8):
-                    neutral = machine.neutralise(current, e["neutraliser"], current_v)
-                    if neutral is None or neutral.get("ops") == current.get("ops") and neutral.get("queries") == current.get("queries"):
+            # 2. findings with a neutraliser: remove the trigger and see whether the verdict disappears.  Removing one
+            #    trigger can let the victim live longer and meet the same or ANOTHER listed trigger, so the neutralisers
+            #    of all entries whose signature the remaining verdict carries are applied cumulatively, to a fixed point.
+            if attributed is None:
+                current, current_v, used = scenario, v, []
+                for _ in range(10):
+                    progressed = False
+                    for e in open_entries:
+                        if not e.get("neutraliser"):
+                            continue
+                        if not (rule_matches(e["rules"], current_v["rule"]) and signature_matches(e.get("signature", {}), current_v["features"])):
+                            continue
+                        neutral = machine.neutralise(current, e["neutraliser"], current_v)
+                        if neutral is None or (neutral.get("ops") == current.get("ops") and neutral.get("queries") == current.get("queries")):
+                            continue
+                        nres = procs.execute_scenario(machine, neutral)
+                        if "harness_error" in nres or nres.get("timeout"):
+                            continue
+                        used.append(e)
+                        progressed = True
+                        again = [nv for nv in nres["verdicts"] if machine.same_target(v, nv)]
+                        if not again:
+                            attributed = used[0]
+                        else:
+                            current, current_v = neutral, again[0]
                         break
-                    nres = procs.execute_scenario(machine, neutral)
-                    if "harness_error" in nres or nres.get("timeout"):
+                    if attributed is not None or not progressed:
                         break
-                    again = [nv for nv in nres["verdicts"] if machine.same_target(v, nv)]
-                    if not again:
-                        attributed = e
-                        break
-                    if not (rule_matches(e["rules"], again[0]["rule"]) and signature_matches(e.get("signature", {}), again[0]["features"])):
-                        break  # what is left no longer carries the trigger: a different violation
-                    current, current_v = neutral, again[0]
-                if attributed is not None:
-                    break
             if attributed is not None:
                 suppressed[attributed["id"]] += 1
                 continue
